@@ -623,6 +623,7 @@ type Contract struct {
 	Opaque     bool
 	SkipSafe   map[string]bool
 	NoInline   bool
+	PureCalls  []string
 	Sweep      bool // implicit contract of the zero-annotation safety sweep
 }
 
@@ -672,7 +673,7 @@ var blockKeywords = map[string]bool{"ghostvar": true, "ghostfield": true, "immut
 var clauseKeywords = map[string]bool{
 	"always": true, "requires": true, "ensures": true, "modifies": true, "reads": true, "writes": true, "fills": true, "loop": true, "at": true, "panics_when": true,
 	"prop": true, "pure": true, "uses": true, "abstract": true, "counts": true, "trusted": true, "may_panic": true,
-	"induct": true, "trigger": true, "inline": true, "opaque": true, "nosafe": true, "noinline": true,
+	"induct": true, "trigger": true, "inline": true, "opaque": true, "nosafe": true, "noinline": true, "purecall": true,
 }
 
 // readContractFile parses the //@ lines of one file.
@@ -927,6 +928,10 @@ func readContractFile(path, pkgPath string) (*ContractFile, error) {
 			cur.Opaque = true
 		case "may_panic":
 			cur.MayPanic = true
+		case "purecall":
+			// purecall <expr>: calls of this function value (written exactly like this) have no
+			// side effects and their result is apply(<expr>, args) -- a listed assumption
+			cur.PureCalls = append(cur.PureCalls, strings.TrimSpace(rest))
 		case "noinline":
 			// callees without a contract are never inlined: they are unknown calls
 			cur.NoInline = true
